@@ -743,10 +743,14 @@ def _make_ref_evaluator():
                     self.bad.append("complex")
                 elif not (abs(v) < self.maxabs):
                     self.bad.append("float-range")
+            if self.minabs and isinstance(v, (float, complex)) and v == v \
+                    and 0 < abs(v) < self.minabs:
+                self.bad.append("float-range")      # would underflow in single precision
             return v
 
         allow_complex = False
         maxabs = 1e12
+        minabs = 0.0
 
         rec = __call__
 
@@ -873,6 +877,8 @@ def execute(scenario, open_sigs):
             # single precision programs: no intermediate value large enough for its rounding
             # error (6e-8 relative) to matter to a sine or an exponential
             maxabs = 1e4 if cfloat else 1e12
+            # ... and none so small that its square or a quotient of such underflows
+            minabs = 1e-12 if cfloat else 0.0
         Ref = RefC
 
     events, known, probes, faults, states = [], [], {}, {}, set()
